@@ -15,9 +15,8 @@ import (
 const textA6 = "A6 (expiry filter): every read of a database's keyspace dictionary (get / iteration / direct bucket or count access / handing the dictionary to a helper) is (a) in a raw-lookup function all of whose callers are expiry filters — they test isExpired on the object and yield (nil,false) on the expired edge —, or (b) an iteration that tests isExpired on each element before using it, or (c) the snapshot writer (which must see every stored key)"
 
 // rawConsumers: functions allowed to read the keyspace without the filter, with the reason.
-var rawConsumers = map[string]string{
-	"(*dataStore).save": "snapshot writer: must persist every stored key, the deadline is stored with it",
-}
+// Filled per run with the snapshot writer, identified structurally (the function that drives a gob.Encoder).
+var rawConsumers = map[string]string{}
 
 type expiryModel struct {
 	isExpired map[*ssa.Function]bool // methods on storeKey comparing time.Now() with expiresAt
@@ -255,6 +254,10 @@ func ruleA6(c *Ctx) {
 	if len(mm.errs) > 0 {
 		c.S.Undecided("A6-expiry", "model", "-", mm.errs[0])
 		return
+	}
+	rawConsumers = map[string]string{}
+	if pa := c.persist(); pa.writer != nil {
+		rawConsumers[fnName(pa.writer)] = "snapshot writer (drives the gob encoder): must persist every stored key, the deadline is stored with it"
 	}
 	isExp := m.expiryFns()
 	if len(isExp) == 0 {
